@@ -32,12 +32,13 @@ ASSUMPTIONS = [
     "(qq_depth folded into (min, max); the two colon settings folded into "
     "require_colon; tract-level settings compared where they take effect, at "
     "TractParser).",
-    "Channel B uses one assignment; cross-setting conflicts (config qq_depth "
-    "vs keyword qq_depth_min) are not generated.",
+    "Channel B uses one assignment; the only cross-setting conflict judged "
+    "is the documented one (a qq_depth_min/max keyword makes a configured "
+    "qq_depth be ignored; a qq_depth keyword overrides configured min/max).",
 ]
 MIN_NONTRIVIAL = {'quick': 3000, 'thorough': 60000}
 REQUIRED_MONITORS = ['roundtrip', 'unknown-name', 'channel:A=B', 'channel:A=C',
-                     'channel:split',
+                     'channel:split', 'channel:cross',
                      'channel:K', 'channel:M', 'tract:A=B', 'tract:A=C',
                      'hook:PLSSParser.__init__', 'hook:TractParser.__init__']
 
@@ -371,6 +372,74 @@ def run_tract(st, desc, ctx, log, pytrs):
                               f"via keywords -> {y.trs}")
 
 
+# -- documented cross-setting rule ------------------------------------------------
+
+def run_cross(rng, ctx, log, pytrs):
+    """
+    Documented in PLSSDesc.parse / Tract.parse: a qq_depth_min or qq_depth_max
+    KEYWORD makes the parse ignore a configured qq_depth (the keyword wins
+    over the config string, also across these three related settings); a
+    qq_depth keyword overrides configured min / max.
+    """
+    depth = rng.choice([1, 2, 3])
+    which = rng.choice(['qq_depth_min', 'qq_depth_max', 'both', 'depth-kw'])
+    mn = rng.choice([1, 2, 3])
+    mx = rng.choice([mn, mn + 1])
+    if which == 'qq_depth_min':
+        kw, expect = {'qq_depth_min': mn}, {'qq_depth_min': mn}
+        cfg = {'qq_depth': depth}
+    elif which == 'qq_depth_max':
+        kw, expect = {'qq_depth_max': max(2, mx)}, {'qq_depth_max': max(2, mx)}
+        cfg = {'qq_depth': depth}
+    elif which == 'both':
+        kw = {'qq_depth_min': mn, 'qq_depth_max': mx}
+        expect = dict(kw)
+        cfg = {'qq_depth': depth}
+    else:
+        kw, expect = {'qq_depth': depth}, {'qq_depth': depth}
+        cfg = {'qq_depth_min': mn, 'qq_depth_max': mx}
+    bh = rng.random() < 0.3
+    if bh:
+        cfg['break_halves'] = True
+        expect['break_halves'] = True
+    tdesc = rng.choice(['N/2NE/4NE/4, S/2', 'S/2N/2NW/4SW/4', 'N/2',
+                        'NE/4, E/2W/2SE/4'])
+    case = {'kind': 'cross', 'config': cfg, 'keywords': kw, 'desc': tdesc}
+    ctx.case([cfg, kw, tdesc], True, shape=f"cross|{which}",
+             sample={'config': cfg, 'keywords': kw, 'desc': tdesc})
+    ctx.hit('channel:cross')
+    with ctx.guard(case):
+        ref = pytrs.Tract(tdesc, config=CF.to_text(expect), parse_qq=True)
+        t = pytrs.Tract(tdesc, config=CF.to_text(cfg))
+        t.parse(**kw)
+        if t.qqs != ref.qqs:
+            ctx.violation(
+                'cross-setting-precedence:Tract', case,
+                f"Tract({tdesc!r}, config={CF.to_text(cfg)!r}).parse({kw}) -> "
+                f"{t.qqs}; the keyword alone ({CF.to_text(expect)!r}) gives "
+                f"{ref.qqs}", dedup=which)
+        full = f"T154N-R97W Sec 14: {tdesc}"
+        d = pytrs.PLSSDesc(full, config=CF.to_text(dict(cfg, parse_qq=True)),
+                           wait_to_parse=True)
+        got = d.parse(**kw)
+        dref = pytrs.PLSSDesc(full,
+                              config=CF.to_text(dict(expect, parse_qq=True)))
+        if [x.qqs for x in got] != [x.qqs for x in dref.tracts]:
+            ctx.violation(
+                'cross-setting-precedence:PLSSDesc', case,
+                f"PLSSDesc(config={CF.to_text(cfg)!r}).parse({kw}) -> "
+                f"{[x.qqs for x in got]}; the keyword alone gives "
+                f"{[x.qqs for x in dref.tracts]}", dedup=which)
+        # ... and re-parsing the tracts of the description later agrees.
+        d.parse_tracts()
+        if [x.qqs for x in d.tracts] != [x.qqs for x in dref.tracts]:
+            ctx.violation(
+                'cross-setting-precedence:parse_tracts', case,
+                f"after parse({kw}) a plain parse_tracts() gives "
+                f"{[x.qqs for x in d.tracts]}, expected "
+                f"{[x.qqs for x in dref.tracts]}", dedup=which)
+
+
 # -- round trip ---------------------------------------------------------------
 
 ATTRS16 = ('default_ns', 'default_ew', 'layout', 'wait_to_parse', 'parse_qq',
@@ -504,8 +573,10 @@ def run_shard(shard, ctx):
         return
     rng = ctx.rng(fam, shard.get('i', 0))
     if fam == 'roundtrip':
-        for _ in range(shard['n']):
+        for i in range(shard['n']):
             run_roundtrip(rng, ctx, pytrs)
+            if i % 5 == 0:
+                run_cross(rng, ctx, log, pytrs)
         return
     if fam == 'single-random':
         for _ in range(shard['n']):
@@ -537,6 +608,7 @@ def replay(case, ctx):
         rng = ctx.rng('roundtrip', 0)
         for _ in range(2000):
             run_roundtrip(rng, ctx, pytrs)
+            run_cross(rng, ctx, log, pytrs)
 
 
 MANIFEST_TEXT = (
